@@ -96,7 +96,17 @@ LimitCounts(ur) ==
   LET yrs == UNION {Around(MulChain(FromInt(DaysFromCivil(y, 1, 1)), TicksPerDayChain(ur[1]))) : y \in YearStarts}
       \* 16-digit years: where the 32 byte print buffer ends
       huge == UNION {Around(MulChain(DaysFromCivilBig(Mk(sg, MShiftDec(<<1>>, e)), 1, 1), TicksPerDayChain(ur[1]))) : e \in {14, 15, 16}, sg \in {TRUE, FALSE}}
-  IN {c \in Around(RepMin(ur[2])) \cup Around(RepMax(ur[2])) \cup Around(Zero) \cup yrs \cup huge : Fits(c, ur[2])}
+      \* sub-second units: the first (partial) second and the first whole second above min(), the last two below max(),
+      \* in eighths of a second with their +-1 tick neighbours, and the exact second boundaries in between
+      tps == CASE ur[1] = "ns" -> 1000000000 [] ur[1] = "us" -> 1000000 [] ur[1] = "ms" -> 1000 [] OTHER -> 0
+      edge(lim, sg) ==
+        IF tps = 0 THEN {}
+        ELSE UNION {{AddSmall(lim, sg * ((j * (tps \div 8)) + d)) : d \in {-1, 0, 1}} : j \in 0..16}
+             \cup UNION {LET b == MulChain(AddSmall(DivModChain(lim, IF tps = 1000 THEN <<1000>> ELSE IF tps = 1000000 THEN <<1000, 1000>> ELSE <<1000, 1000, 1000>>).q, s),
+                                           IF tps = 1000 THEN <<1000>> ELSE IF tps = 1000000 THEN <<1000, 1000>> ELSE <<1000, 1000, 1000>>)
+                          IN {AddSmall(b, d) : d \in {-1, 0, 1}} : s \in -2..3}
+  IN {c \in Around(RepMin(ur[2])) \cup Around(RepMax(ur[2])) \cup Around(Zero) \cup yrs \cup huge
+            \cup edge(RepMin(ur[2]), 1) \cup edge(RepMax(ur[2]), -1) : Fits(c, ur[2])}
 LimitRows ==
   LET Req(k, ur) == {[k |-> k, u |-> ur[1], r |-> ur[2], c |-> ToDec(c)] : c \in LimitCounts(ur)}
       all == UNION {Req("tp", PrintableUR[i]) \cup Req("dur", PrintableUR[i]) : i \in 1..Len(PrintableUR)} \cup Req("time_t", <<"s", "i64">>)
